@@ -346,6 +346,23 @@ func one(out *trace.W, r *rand.Rand, tid string, blocks int, stats map[string]in
 		if len(d.hist) > 0 && r.Intn(2) == 0 {
 			d.hist[r.Intn(len(d.hist))]()
 		}
+		// ---- governance: now and then the x/evm parameters change with the next block (written into the working set of the
+		// root store, as the gov end-blocker's write of the previous block would be); predictions made on the old state are void
+		if r.Intn(4) == 0 {
+			hdr := c.Ctx().BlockHeader()
+			uctx := c.App.BaseApp.NewUncachedContext(false, hdr)
+			p := c.App.EvmKeeper.GetParams(uctx)
+			if r.Intn(2) == 0 {
+				p.EnableCall = !p.EnableCall
+			} else {
+				p.EnableCreate = !p.EnableCreate
+			}
+			if err := c.App.EvmKeeper.SetParams(uctx, p); err != nil {
+				panic(err)
+			}
+			pending = nil
+			stats["param-changes"]++
+		}
 		// ---- the next block: predicted calls first, then ordinary traffic ----
 		var txs [][]byte
 		var delivered []call
